@@ -161,7 +161,7 @@ def clo_ir(fn) -> str:
             out.append(f"(sumIdx {_ints(d[0])})")
         elif args == ("x", "fns") and "sqrt" in names:
             out.append("(sqrtSumSq (" + " ".join(clo_ir(f) for f in d[0]) + "))")
-        elif args == ("x", "fns") and "sum" in names and "float" in names:
+        elif args == ("x", "fns") and "sum" in names and ("float" in names or "float64" in names):
             out.append("(sumFns (" + " ".join(clo_ir(f) for f in d[0]) + "))")
         elif args == ("x", "vf") and "norm" in names:
             out.append("(norm " + vclo_ir(d[0]) + ")")
